@@ -27,7 +27,7 @@ Proof.
 Qed.
 
 (* ================================================================== RoundRobin / WhiteList *)
-Definition rr_inv (wl : option (list Z)) (s : rr_state) (L : Z -> bool) : Prop :=
+Definition rr_inv (wl : option (Z -> bool)) (s : rr_state) (L : Z -> bool) : Prop :=
   NoDup (rr_live s) /\ forall h, In h (rr_live s) <-> L h = true /\ allowedb wl h = true.
 
 Lemma rr_inv_init : forall wl, rr_inv wl rr_init (fun _ => false).
@@ -484,9 +484,10 @@ Proof.
   - assert (E : forall evs s, fold_left (b_step BRR) evs (SRR s) = SRR (fold_left (rr_step None) evs s)).
     { induction evs0 as [|a evs0 IH]; intros; simpl; auto. }
     rewrite E. simpl. apply rr_inv_run. apply rr_inv_init.
-  - assert (E : forall evs s, fold_left (b_step (BWL allowed)) evs (SRR s) = SRR (fold_left (rr_step (Some allowed)) evs s)).
+  - assert (E : forall evs s, fold_left (b_step (BWL names resolve addr)) evs (SRR s) =
+                              SRR (fold_left (rr_step (b_wl (BWL names resolve addr))) evs s)).
     { induction evs0 as [|a evs0 IH]; intros; simpl; auto. }
-    rewrite E. simpl. apply rr_inv_run. apply rr_inv_init.
+    rewrite E. apply rr_inv_run. apply rr_inv_init.
   - assert (E : forall evs s, fold_left (b_step (BDCA local used contact)) evs (SDCA s) = SDCA (fold_left dca_step evs s)).
     { induction evs0 as [|a evs0 IH]; intros; simpl; auto. }
     rewrite E. simpl. apply dca_inv_delivered. exact Hd.
